@@ -1,7 +1,7 @@
 (* C19: the lemmas that Props/C19.v states, over schedules. *)
 From Coq Require Import List ZArith Bool Arith Lia Permutation.
 From HV Require Import Model.Push Proofs.PushBase Proofs.PushInv Proofs.PushData Proofs.PushOrder
-                       Proofs.PushLive Proofs.PushGuard Proofs.PushFixed.
+                       Proofs.PushLive Proofs.PushGuard Proofs.PushFixed Proofs.PushSub.
 Import ListNotations.
 
 Lemma run_InvAll b sched s : run (init_of b) sched = Some s -> InvAll s.
@@ -211,3 +211,56 @@ Lemma witness_fixed_delivers :
     poll_result s 0 = Some RTimeout /\ poll_result s 1 = Some (RBatch [(7, 0, 0, [42%Z])]) /\
     dmsgs 0 (delivered s) = [42%Z].
 Proof. eexists. eexists. vm_compute. repeat split; reflexivity. Qed.
+
+(* ---- concurrent subscribes / unsubscribes of one (client, topic) *)
+
+(* the cache a subscription installed stays the cache of its (client, topic) along every run,
+   whatever other subscribes of the same pair, publishes and polls do concurrently, until an
+   unsubscribe / heartbeat-offline of exactly that pair reaches its Delete *)
+Lemma subscription_cache_stable : forall b pre s sched s', run (init_of b) pre = Some s -> run s sched = Some s' ->
+  forall id k c, tget id k (table s) = Some c ->
+  tget id k (table s') = Some c \/
+  exists mid s1, run s mid = Some s1 /\ (exists post, sched = mid ++ post) /\ deleting s1 id k.
+Proof. intros b pre s sched s' _ H. apply table_stable_run. exact H. Qed.
+
+Lemma tget_single id k i j c d : tget id k [(i, j, c)] = Some d -> d = c.
+Proof. cbn. destruct (Nat.eqb i id && Nat.eqb j k)%bool; intros H; inversion H; reflexivity. Qed.
+
+(* two subscribes of client 1 to topic 7 race: both pass the existence check, the first installs
+   cache 0, Unicast(42) is accepted into cache 0, then the second one inserts *)
+Definition sub_race : list event :=
+  [ESpawn (OSub 1 7); ESpawn (OSub 1 7)] ++ rep 2 (EWork 0 0) ++ rep 2 (EWork 1 0) ++ [EWork 0 0] ++
+  [ESpawn (OUni 7 42%Z 1)] ++ rep 3 (EWork 2 0) ++ [EWork 1 0] ++
+  [ESpawn (OPoll 1)] ++ rep 8 (EPoll 0 0).
+
+Definition sub_result (s : state) (w : nat) : option bool :=
+  match nth_error (works s) w with
+  | Some wk => match wf wk with WSub _ _ (SubDone r) => Some r | _ => None end
+  | None => None
+  end.
+
+(* with LoadOrStore (the code as it is): the second subscribe reports false, the cache stays,
+   the poll returns the message *)
+Lemma sub_race_atomic_delivers :
+  exists s, run init_fixed sub_race = Some s /\ run_avoiding hazard init_fixed sub_race = Some s /\
+    sub_result s 0 = Some true /\ sub_result s 1 = Some false /\ pub_result s 2 = Some [(1, true)] /\
+    tget 1 7 (table s) = Some 0 /\ poll_result s 0 = Some (RBatch [(7, 0, 0, [42%Z])]) /\
+    dmsgs 0 (delivered s) = [42%Z].
+Proof. eexists. vm_compute. repeat split; reflexivity. Qed.
+
+(* with Store (check and insert not atomic): the second subscribe replaces cache 0, which holds
+   the accepted message, by an empty cache 1; the poll waits for nothing; the message can never
+   be reached again *)
+Lemma sub_race_store_refuted :
+  exists s ca, run_nonatomic init_fixed sub_race = Some s /\
+    sub_result s 0 = Some true /\ sub_result s 1 = Some true /\ pub_result s 2 = Some [(1, true)] /\
+    nth_error (caches s) 0 = Some ca /\ cacc ca = [42%Z] /\ cmsgs ca = [42%Z] /\
+    tget 1 7 (table s) = Some 1 /\                               (* cache 0 is not the subscription's cache any more *)
+    (forall id k, tget id k (table s) <> Some 0) /\
+    delivered s = [] /\ poll_result s 0 = None /\
+    nth_error (chans s) 0 = Some VEmpty.                         (* the client's poll waits *)
+Proof.
+  eexists. eexists. split; [vm_compute; reflexivity|].
+  repeat split; try (vm_compute; reflexivity).
+  intros id k H. cbn [table] in H. apply tget_single in H. discriminate.
+Qed.
